@@ -59,3 +59,11 @@ impl SocketAddr {
         match self { SocketAddr::V4(a) => a.port, SocketAddr::V6(a) => a.port }
     }
 }
+
+impl vstd::std_specs::convert::FromSpecImpl<Ipv4Addr> for u32 {
+    open spec fn obeys_from_spec() -> bool { true }
+    open spec fn from_spec(a: Ipv4Addr) -> u32 { a.bits }
+}
+impl From<Ipv4Addr> for u32 {
+    fn from(a: Ipv4Addr) -> (r: u32) { a.bits }
+}
